@@ -35,6 +35,21 @@ def uniq_key_table(rng, nk, nv, maxn=5):
     return [hdr] + rows, kf, vf
 
 
+def _after_overlap(view):
+    """a leading pass, a second pass that starts behind it, both run to the end; then what a fresh pass delivers"""
+    a = iter(view)
+    for _ in range(3):
+        next(a, None)
+    b = iter(view)
+    next(b, None)
+    next(b, None)
+    for _ in a:
+        pass
+    for _ in b:
+        pass
+    return view
+
+
 def run(ctx):
     import petl as etl
     ctx.rule = ('rectangular tables with unique (None / mixed-type / compound) keys, every split into key and variable fields: '
@@ -127,6 +142,9 @@ def run(ctx):
         if len(T) > 1:
             add('fromdicts∘dicts', 'skip 0 %s' % tt, lambda T=T, hdr=hdr: etl.fromdicts(list(etl.dicts(T)), header=hdr), base, nt)
             add('fromdicts∘dicts(no header)', 'skip 0 %s' % tt, lambda T=T: etl.fromdicts(list(etl.dicts(T))), base, nt)
+            add('fromdicts∘dicts(generator)', 'skip 0 %s' % tt, lambda T=T, hdr=hdr: etl.fromdicts((d for d in list(etl.dicts(T))), header=hdr), base, nt)
+            add('fromdicts∘dicts(generator, pass after two overlapping passes)', 'skip 0 %s' % tt,
+                lambda T=T, hdr=hdr: _after_overlap(etl.fromdicts((d for d in list(etl.dicts(T))), header=hdr)), base, nt)
             add('fromcolumns∘columns', 'skip 0 %s' % tt, lambda T=T, hdr=hdr: etl.fromcolumns([etl.columns(T)[f] for f in hdr], header=hdr), base, nt)
         cols = [[rng.choice(CELLS) for _ in range(rng.choice([0, 1, 2, 3]))] for _ in range(rng.choice([1, 2, 3]))]
         add('fromcolumns', 'rs fromcolumns %s %s' % (proto.enc(m), proto.enc_table(cols)), lambda cols=cols, m=m: etl.fromcolumns(cols, missing=m), dict(cols=repr(cols)), True)
